@@ -286,6 +286,26 @@ Fixpoint wf_schemab (s : schema) : bool :=
 
 Definition wf_envb (e : env) : bool := forallb (fun ns => wf_schemab (snd ns)) e.
 
+(* constructor names of an enum are pairwise distinct, hereditarily (needed for the converse direction:
+   every accepted byte string is the encoding of the value it decodes to) *)
+Fixpoint nodup_strb (l : list string) : bool :=
+  match l with
+  | [] => true
+  | x :: t => negb (existsb (String.eqb x) t) && nodup_strb t
+  end.
+Definition ctors_of (vs : list (string * N * schema)) : list string :=
+  map (fun v => match v with (c, _, _) => c end) vs.
+Fixpoint cwf_schemab (s : schema) : bool :=
+  match s with
+  | SSeq t => cwf_schemab t
+  | SOpt t => cwf_schemab t
+  | SStruct fs => forallb (fun ft => match ft with (_, t) => cwf_schemab t end) fs
+  | SEnum vs => nodup_strb (ctors_of vs)
+                && forallb (fun v => match v with (_, _, t) => cwf_schemab t end) vs
+  | _ => true
+  end.
+Definition cwf_envb (e : env) : bool := forallb (fun ns => cwf_schemab (snd ns)) e.
+
 (* every name used resolves to a proper (non-name) schema *)
 Fixpoint closedb (e : env) (s : schema) : bool :=
   match s with
